@@ -127,7 +127,8 @@ def build_axioms():
     ax('be_tl', FA([v, k], _imp(z3.And(k >= 0, v >= 0, v < pow2(8 * k)), be(tl(v, k)) == le(tb(v, k))), [be(tl(v, k))]))
     ax('bat_range', FA([d, a], _imp(z3.And(0 <= a, a < blen(d)), z3.And(bat(d, a) >= 0, bat(d, a) <= 255)), [bat(d, a)]))
     # bytes.index: least aligned-or-not byte offset of the first occurrence, or -1
-    ax('bfind_range', FA([d, e], z3.And(bfind(d, e) >= -1, bfind(d, e) + blen(e) <= blen(d)), [bfind(d, e)]))
+    ax('bfind_range', FA([d, e], z3.And(bfind(d, e) >= -1, _imp(bfind(d, e) >= 0, bfind(d, e) + blen(e) <= blen(d))),
+                         [bfind(d, e)]))
     ax('bfind_hit', FA([d, e], _imp(bfind(d, e) >= 0, sl(d, bfind(d, e), bfind(d, e) + blen(e)) == e), [bfind(d, e)]))
     # ---- reals ------------------------------------------------------------------------------------------------
     ax('rpow_0', FA([r, a], _imp(a == 0, rpow(r, a) == 1), [rpow(r, a)]))
